@@ -108,7 +108,9 @@ func c01run(r *hk.Reporter, c *c01case) {
 	if !ref.SM2Verify(px, py, e, rr, ss) {
 		r.Violation("signature-rejected-by-reference-verifier:"+c.entry, detail())
 	}
-	if strings.HasPrefix(c.label, "retry-after-") {
+	if strings.HasPrefix(c.label, "history:") {
+		r.Eval(fmt.Sprintf("%s:related-key-history,keylen=%d", c.entry, len(c.priv)))
+	} else if strings.HasPrefix(c.label, "retry-after-") {
 		r.Eval(fmt.Sprintf("%s:%s,consumed=%d", c.entry, c.label, rd.off))
 	} else {
 		r.Eval(fmt.Sprintf("%s:privlen=%d,lz(r)=%d,lz(s)=%d,lz(t)=%d", c.entry, len(c.priv), lzClass(rI), lzClass(sI), lzClass(t)))
@@ -134,6 +136,7 @@ func TestVerifC01(t *testing.T) {
 	}
 	seed := hk.Seed()
 	rng := hk.NewRNG(seed, "c01")
+	hostilePrelude(hk.NewRNG(hk.Seed(), "prelude"))
 
 	keys := specialKeys()
 	nRandKeys := hk.N(6, 40)
@@ -241,4 +244,39 @@ func TestVerifC01(t *testing.T) {
 		}
 	})
 	r.Note("cases", len(cases))
+
+	// sequential HISTORIES with related keys: A, then a shorter encoding that is the TAIL of A (another
+	// valid key), equal values in different encodings, keys sharing long prefixes; both orders; all three
+	// entry points. Every signature must verify under the key it was made with.
+	for h := 0; h < hk.N(30, 300); h++ {
+		lr := hk.NewRNG(seed, caseID("c01hist", h))
+		a := ref.B32(randScalar(lr))
+		a[0] |= 1
+		cut := 1 + lr.Intn(8)
+		fam := [][]byte{a, a[cut:], a[1:], append([]byte{}, a...), append(make([]byte, cut), a[cut:]...)}
+		b := append([]byte{}, a...)
+		b[31] ^= 1
+		fam = append(fam, b)
+		order := []int{0, 1, 0, 2, 3, 4, 1, 5, 0, 1}
+		if h%2 == 1 {
+			order = []int{1, 0, 2, 0, 4, 3, 5, 1, 0}
+		}
+		for step, ki := range order {
+			priv := fam[ki]
+			d := new(big.Int).SetBytes(priv)
+			if !ref.ValidPriv(d) {
+				continue
+			}
+			c := &c01case{d: d, priv: priv, stream: lr.Bytes(32 * 4), label: fmt.Sprintf("history:step%d,keylen=%d", step, len(priv))}
+			switch (h + step) % 3 {
+			case 0:
+				c.entry, c.e = "hashed", lr.Bytes(32)
+			case 1:
+				c.entry, c.za, c.msg = "za", lr.Bytes(32), lr.Bytes(20)
+			default:
+				c.entry, c.id, c.msg = "id", []byte("1234567812345678"), lr.Bytes(20)
+			}
+			c01run(r, c)
+		}
+	}
 }
